@@ -1742,13 +1742,27 @@ func (x *TX) opaqueViewUses(v ssa.Value, direct bool, seen map[ssa.Value]bool) [
 				}
 				continue
 			}
+			if strings.Contains(name, "Endian).AppendUint") {
+				// AppendUintNN(b, v) is append(b, …)
+				if argIdx == 1 && !(direct && x.appendCannotWriteInside(v)) {
+					add(r, name+" into it (writes the backing array when capacity allows)")
+				}
+				continue
+			}
 			if readOnlyByteFuncs[name] {
 				continue
 			}
 			if x.p.inModuleCode(callee) || (callee.Pkg != nil && x.p.isModulePkgPath(callee.Pkg.Pkg.Path())) {
 				if argIdx >= 0 && argIdx < len(callee.Params) && callee.Blocks != nil {
-					if cx := x.p.tx(callee); len(cx.opaqueViewUses(callee.Params[argIdx], false, map[ssa.Value]bool{})) == 0 {
-						continue // the callee only reads it
+					prm := callee.Params[argIdx]
+					end := direct && x.appendCannotWriteInside(v)
+					if end {
+						endReachingParams[prm] = true
+					}
+					n := len(x.p.tx(callee).opaqueViewUses(prm, end, map[ssa.Value]bool{}))
+					delete(endReachingParams, prm)
+					if n == 0 {
+						continue // the callee only reads it (or appends past the end of an end-reaching view)
 					}
 				}
 				add(r, "module function "+name)
@@ -1789,18 +1803,19 @@ func (x *TX) opaqueViewUses(v ssa.Value, direct bool, seen map[ssa.Value]bool) [
 	return out
 }
 
-// appendCannotWriteInside: v is a buffer (or a view of it reaching its end) whose capacity
-// equals its length: append(v, …) has no room, allocates, and leaves the buffer alone.
+var endReachingParams = map[*ssa.Parameter]bool{}
+
+// appendCannotWriteInside: v is the buffer itself or a view of it that reaches the end of the
+// buffer's length: append(v, …) writes (at most) into spare capacity beyond that length, which
+// is not part of the buffer's value, or allocates. (A shortened view x[:k] is the other case:
+// append overwrites x[k:].)
 func (x *TX) appendCannotWriteInside(v ssa.Value) bool {
 	for {
 		switch o := v.(type) {
+		case *ssa.Parameter:
+			return endReachingParams[o] // (set while a caller's end-reaching view is followed into this callee)
 		case *ssa.MakeSlice:
-			if o.Cap == o.Len {
-				return true
-			}
-			l, okL := constInt(o.Len)
-			c, okC := constInt(o.Cap)
-			return okL && okC && l == c
+			return true
 		case *ssa.Slice:
 			if o.Max != nil {
 				return false
@@ -1810,11 +1825,23 @@ func (x *TX) appendCannotWriteInside(v ssa.Value) bool {
 				if !isArr {
 					return false
 				}
+				// make([]T, n, c) with constant sizes is `new [c]T` sliced once [:n]: that slice is the buffer
+				only := true
+				for _, r := range *a.Referrers() {
+					if r != ssa.Instruction(o) {
+						if _, dbg := r.(*ssa.DebugRef); !dbg {
+							only = false
+						}
+					}
+				}
+				if only && o.Low == nil {
+					return true
+				}
 				if o.High == nil {
-					return true // arr[lo:] has cap = len
+					return true // arr[lo:] ends where the array ends
 				}
 				h, ok := constInt(o.High)
-				return ok && int64(h) == arr.Len() // arr[lo:N]: make([]byte, N) with constant N
+				return ok && int64(h) == arr.Len()
 			}
 			if o.High != nil {
 				return false
